@@ -54,6 +54,8 @@ def cases(ctx):
             yield c
             continue
         c = gen.cube_case(rng, max_dims=4, n=gen.pick(rng, [1, 2, 3, 5, 8, 17, 40, 60, 120]) if rng.random() < 0.9 else 0)
+        if rng.random() < 0.08:
+            gen.add_alias(rng, c)       # one index object as two dimensions of the cube
         n = c["dense"][0].shape[0] if c["dense"] else gen.pick(rng, [1, 4, 9])
         c["n"] = n
         c.update(aggr.agg_inputs(rng, n))
@@ -108,6 +110,8 @@ def judge(ctx, case):
     ctx.count("class:w=" + w["kind"])
     if case.get("boundary_m"):
         ctx.count("class:cell_counter_on_boundary")
+    if case.get("alias"):
+        ctx.count("class:same_index_object_as_two_dimensions")
     if case.get("many_cells"):
         ctx.count("class:more_than_1024_cells")
     if case.get("unequal_cells"):
